@@ -223,6 +223,10 @@ def run(res, tier, seed, proof):
                                                for q in c16.token_sequences(tl if quick else tl - 1, tl if quick else tl - 1)))
     T.run_chunked("token-sequences:noisy", (c16.render_tokens(q, rnd) for q in c16.token_sequences(tl if quick else tl - 1, 2)
                                             if quick or rnd.random() < 0.25))
+    # VT, FF, NEL, NBSP, U+1680, U+2000..200A, U+2028/9, U+202F, U+205F, U+3000 (unicode.IsSpace) and neighbours (U+001C..1F, U+200B,
+    # U+FEFF, ...) are token characters: in unquoted tokens, between tokens, at the end, in strings and comments
+    T.run_chunked("unicode-space", c16.unicode_space_texts())
+    T.run_chunked("unicode-space-exhaustive", c16.unicode_space_exhaustive(4 if quick else 5))
     T.run_chunked("multiline-grid", multiline_grid(24))
     T.run_chunked("grammar-directed", grammar_cases(rnd, 3000 if quick else 60000))
     T.run_chunked("malformed", malformed_cases(rnd, 300 if quick else 6000))
@@ -233,14 +237,16 @@ def run(res, tier, seed, proof):
                     "every token sequence up to length %d over the 15 tokens {a pattern + ; { } \"b\" 'b' \"+\" '+' \";\" \"{\" \"}\" \"\" \"a\\d\"} "
                     "(quick: plus length 5 over the first 11 of them) with minimal separators, the longest again behind `x ` and `x {`, and "
                     "with random blanks/comments between the tokens; "
-                    "statements P \"body\"; for every body up to length %d over {x SP TAB LF CR \\ n t \"} in %d layouts P (tabs, multi-byte "
+                    "every code point of unicode.IsSpace beyond SP TAB CR LF and 10 neighbours, in 38 templates (inside unquoted tokens, between "
+                    "tokens, at the end of the text, in strings, comments, concatenations) and in every string up to length %d over "
+                    "{a ; { \" ' SP LF W}; statements P \"body\"; for every body up to length %d over {x SP TAB LF CR \\ n t \"} in %d layouts P (tabs, multi-byte "
                     "runes, comment / single-quoted piece before the quote, pattern at depth 0 and 1)%s; multi-line grid: every quote column "
                     "up to 24 (by spaces / tabs / after a 2-byte rune) x every continuation indent of spaces with a tab at every position; "
                     "grammar-directed: %d keywords x %d argument forms (unquoted, single, double, escapes, '+' chains, multi-line, multi-byte, "
                     "the excluded constructs) x terminators x gap kinds at depth 0..2, a comment kind in every gap, random forests under layout "
                     "noise; malformed: single-fault mutants of %d kinds and a fixed list.  Both comparisons run on every case.  "
                     "non-trivial = in-claim case (reference reader not Ambiguous) with at least one statement, or rejected"
-                    % (n_ex, tl, nb, 6 if quick else len(LAYOUTS),
+                    % (n_ex, tl, 4 if quick else 5, nb, 6 if quick else len(LAYOUTS),
                        "" if quick else "; all strings of length 7..8 (9 for braces) over four 5/6-symbol sub-alphabets", len(KWS), len(ARGS),
                        len(c16.FAULTS)),
                correspondence_mismatches=T.corr_mism, oracle_mismatches=T.oracle_mism, mismatches=T.corr_mism + T.oracle_mism,
